@@ -99,17 +99,119 @@ def namespace(bindings: dict):
     def in_slice(i, s, n):
         return i in range(*s.indices(n))
 
-    ns = dict(implies=implies, iff=iff, cond=cond, forall=forall, exists=exists, forall_in=forall_in,
+    import numpy as _np
+
+    def W(b):
+        return 1 if b.ndim == 1 else b.cols
+
+    def frozen(b):
+        return not b.writeable
+
+    def same_array(a, b):
+        return a == b
+
+    def kind_is(dt, *ks):
+        return dt.kind in ks
+
+    def np_result_type(a, b):
+        try:
+            return _np.result_type(a, b)
+        except TypeError:
+            return None
+
+    def dtype_class(dt):
+        k = dt.kind
+        return 0 if k in 'US' else 1 if k == 'M' else 2 if k == 'm' else 3 if k == 'b' else 4 if k in 'iufc' else 5 if k == 'O' else 6
+    ns = dict(W=W, frozen=frozen, same_array=same_array, kind_is=kind_is, np_result_type=np_result_type, dtype_class=dtype_class,
+              DTYPE_OBJECT=_np.dtype(object), DTYPE_BOOL=_np.dtype(bool), DTYPE_FLOAT_DEFAULT=_np.dtype('float64'), DTYPE_INT_DEFAULT=_np.dtype('int64'),
+              implies=implies, iff=iff, cond=cond, forall=forall, exists=exists, forall_in=forall_in,
               exists_in=exists_in, is_none=is_none, at=at, length=length, s_start=s_start, s_stop=s_stop,
               s_step=s_step, R=R, R_len=R_len, nth=nth, in_slice=in_slice, true=lambda: True, false=lambda: False)
+    from specs.refs import REFS
+    ns.update(REFS)
     ns.update(bindings)
     return ns
 
 
-def ceval(expr: str, bindings: dict):
+import ast as _ast
+
+
+class _Lazy(_ast.NodeTransformer):
+    """implies(a, b) -> (not a) or b ; cond(c, a, b) -> a if c else b   (Python evaluates call arguments eagerly)"""
+
+    def visit_Call(self, node):
+        self.generic_visit(node)
+        if isinstance(node.func, _ast.Name) and node.func.id == 'implies' and len(node.args) == 2:
+            return _ast.copy_location(_ast.BoolOp(op=_ast.Or(), values=[_ast.UnaryOp(op=_ast.Not(), operand=node.args[0]), node.args[1]]), node)
+        if isinstance(node.func, _ast.Name) and node.func.id == 'cond' and len(node.args) == 3:
+            return _ast.copy_location(_ast.IfExp(test=node.args[0], body=node.args[1], orelse=node.args[2]), node)
+        return node
+
+
+_compiled = {}
+
+
+def _compile(expr):
+    if expr not in _compiled:
+        tree = _ast.parse(expr.strip(), mode='eval')
+        tree = _ast.fix_missing_locations(_Lazy().visit(tree))
+        _compiled[expr] = compile(tree, '<spec>', 'eval')
+    return _compiled[expr]
+
+
+def _subst_old(expr: str, old_bindings: dict, ns_extra: dict):
+    """replace every old(E) by a fresh name bound to E evaluated over the entry-state bindings"""
+    tree = _ast.parse(expr.strip(), mode='eval')
+    consts = {}
+
+    class T(_ast.NodeTransformer):
+        def visit_Call(self, node):
+            if isinstance(node.func, _ast.Name) and node.func.id == 'old' and len(node.args) == 1:
+                name = f'__old{len(consts)}'
+                ns = namespace(dict(old_bindings))
+                ns.update(ns_extra)
+                ns['__builtins__'] = __builtins__
+                inner = _ast.fix_missing_locations(_Lazy().visit(_ast.Expression(node.args[0])))
+                consts[name] = eval(compile(inner, '<old>', 'eval'), ns)
+                return _ast.copy_location(_ast.Name(id=name, ctx=_ast.Load()), node)
+            return self.generic_visit(node)
+    tree = _ast.fix_missing_locations(_Lazy().visit(T().visit(tree)))
+    return tree, consts
+
+
+def ceval(expr: str, bindings: dict, old_bindings: dict = None, predicates: dict = None):
+    extra = {}
+    if predicates:
+        for name, (params, body) in predicates.items():
+            extra[name] = _mk_pred(name, params, body, extra)
+    if old_bindings is not None and 'old(' in expr:
+        tree, consts = _subst_old(expr, old_bindings, extra)
+        ns = namespace(bindings)
+        ns.update(extra)
+        ns.update(consts)
+        ns['__builtins__'] = __builtins__
+        return eval(compile(tree, '<spec>', 'eval'), ns)
+    if extra:
+        ns = namespace(bindings)
+        ns.update(extra)
+        ns['__builtins__'] = __builtins__
+        return eval(_compile(expr), ns)
+    return _ceval0(expr, bindings)
+
+
+def _mk_pred(name, params, body, extra):
+    def pred(*args):
+        ns = namespace(dict(zip(params, args)))
+        ns.update(extra)
+        ns['__builtins__'] = __builtins__
+        return eval(_compile(body), ns)
+    return pred
+
+
+def _ceval0(expr: str, bindings: dict):
     ns = namespace(bindings)
     ns['__builtins__'] = __builtins__
-    return eval(expr, ns)
+    return eval(_compile(expr), ns)
 
 
 def cexec(stmts: str, bindings: dict):
